@@ -102,6 +102,13 @@ func runC08(c *engine.Ctx) {
 						cases = append(cases, bc)
 					}
 				}
+				// the reader delivers every declared byte and then fails instead of ending:
+				// whatever the server makes of that, a wrong digest must still be refused
+				for _, fk := range []string{"unexpected-eof", "reset"} {
+					for _, m := range []string{"absent", "correct", "wrong"} {
+						cases = append(cases, c08Case{kind: k, target: target, start: st, md5: m, declLen: "exact", framing: "plain", integrity: true, faultAt: 12, faultKind: fk})
+					}
+				}
 				// faults
 				for j := 0; j <= 12; j++ {
 					for _, fk := range []string{"eof", "unexpected-eof", "reset"} {
@@ -142,6 +149,7 @@ func runC08(c *engine.Ctx) {
 		c.Report(&engine.Violation{Sig: sig("C08", backendClass(cs.kind), cs.target, reason, outcome, "start="+cs.start), World: string(cs.kind), History: []string{cs.String()}, Msg: cs.String() + ": " + msg})
 	})
 	c.Add(int64(len(cases)), 0, 0, 0)
+	c08KeyLimits(c, kinds)
 	c.AddSample(map[string]interface{}{"case": cases[7].String()})
 	c.AddSample(map[string]interface{}{"case": cases[len(cases)/2].String()})
 }
@@ -281,6 +289,15 @@ func c08Run(c *engine.Ctx, cs c08Case) (string, string, string) {
 			noCode = true
 		}
 	}
+	lenient := false // accepted (and stored correctly) or refused (and unchanged) are both fine
+	if cs.faultAt == len(wire) && cs.faultAt > 0 && cs.faultKind != "eof" && cs.faultKind != "" {
+		fr.FailAt = len(wire)
+		fr.Err = io.ErrUnexpectedEOF
+		if cs.faultKind == "reset" {
+			fr.Err = errReset
+		}
+		lenient = len(reasons) == 0
+	}
 	if cs.faultAt >= 0 && cs.faultAt < len(wire) {
 		fr.FailAt = cs.faultAt
 		switch cs.faultKind {
@@ -331,6 +348,12 @@ func c08Run(c *engine.Ctx, cs c08Case) (string, string, string) {
 		return reason, "panic@" + drv.PanicFrame(r.Panic), firstLine(r.Panic)
 	}
 	accepted := r.Status == 200
+	if lenient && !invalid && !accepted {
+		if before != after {
+			return "failing-reader-after-last-byte", "state-changed", "refused upload changed state"
+		}
+		return "failing-reader-after-last-byte", "", ""
+	}
 	if !invalid {
 		if metaMay && !accepted {
 			if r.ErrCode() != "MetadataTooLarge" {
@@ -380,4 +403,83 @@ func c08Snap(w *drv.World) string {
 	s := w.Snapshot(drv.SnapOpts{Uploads: true})
 	lp := w.List("aaa", "delimiter=%2F")
 	return s + fmt.Sprintf("DELIM %d %v %v\n", lp.Status, lp.Prefixes, len(lp.Entries))
+}
+
+// c08KeyLimits: the 1024-byte key limit counts bytes, on every way of naming a
+// key for an upload (PUT, copy destination, browser-form POST), also for
+// multi-byte UTF-8 keys.
+func c08KeyLimits(c *engine.Ctx, kinds []drv.Kind) {
+	type kc struct {
+		kind drv.Kind
+		via  string // put | copy | form
+		name string
+		key  string
+		long bool
+	}
+	var cases []kc
+	for _, k := range kinds {
+		for _, via := range []string{"put", "copy", "form"} {
+			cases = append(cases,
+				kc{k, via, "ascii-1025-bytes", strings.Repeat("k", 1025), true},
+				kc{k, via, "utf8-1025-bytes-513-chars", strings.Repeat("é", 512) + "a", true},
+				kc{k, via, "utf8-1026-bytes-342-chars", strings.Repeat("€", 342), true})
+			if !k.IsFs() {
+				cases = append(cases, kc{k, via, "utf8-1024-bytes-512-chars", strings.Repeat("é", 512), false})
+			}
+		}
+	}
+	engine.ParallelFor(len(cases), func(_, i int) {
+		cs := cases[i]
+		w, err := drv.NewWorld(drv.Config{Kind: cs.kind})
+		if err != nil {
+			engine.HarnessError("C08: %v", err)
+		}
+		defer w.Close()
+		if !cs.kind.IsSingle() {
+			w.Do(drv.Req{Method: "PUT", Path: "/aaa"})
+		}
+		w.Do(drv.Req{Method: "PUT", Path: "/aaa/src", Body: []byte("source")})
+		before := c08Snap(w)
+		body := []byte("payload")
+		var r drv.Resp
+		switch cs.via {
+		case "put":
+			r = w.Do(drv.Req{Method: "PUT", Path: "/aaa/" + cs.key, Body: body})
+		case "copy":
+			body = []byte("source")
+			r = w.Do(drv.Req{Method: "PUT", Path: "/aaa/" + cs.key, Header: drv.H("X-Amz-Copy-Source", "/aaa/src")})
+		case "form":
+			fb, ct := formBody(cs.key, body, nil)
+			r = w.Do(drv.Req{Method: "POST", Path: "/aaa", Header: drv.H("Content-Type", ct), Body: fb})
+		}
+		c.Add(1, 1, 1, 1)
+		hist := []string{fmt.Sprintf("%s via=%s key=%s", cs.kind, cs.via, cs.name)}
+		report := func(field, msg string) {
+			c.Report(&engine.Violation{Sig: sig("C08", backendClass(cs.kind), "key-limit", cs.via, cs.name, field), World: string(cs.kind), History: hist, Msg: hist[0] + ": " + msg})
+		}
+		if r.Panic != "" {
+			report("panic@"+drv.PanicFrame(r.Panic), firstLine(r.Panic))
+			return
+		}
+		if cs.long {
+			if r.Status < 400 {
+				report("accepted", "a key of more than 1024 bytes was accepted with "+r.Short())
+				return
+			}
+			if after := c08Snap(w); after != before {
+				report("state-changed", "the rejected upload ("+r.Short()+") changed the stored state")
+				return
+			}
+			c.Distinct(hist[0])
+			return
+		}
+		if r.Status >= 300 {
+			report("rejected-valid", "a key of exactly 1024 bytes was refused with "+r.Short())
+			return
+		}
+		if v := w.Get("aaa", cs.key); v.Status != 200 || string(v.Body) != string(body) {
+			report("stored", "GET of the accepted key answers "+v.String())
+		}
+	})
+	c.Bounds["key_limit_cases"] = len(cases)
 }
